@@ -107,6 +107,10 @@ func (x *Exec) verify() {
 	x.initGhost(entry)
 	x.entry = entry.clone()
 	env := x.specEnv(x.entry, x.entry)
+	for _, dc := range x.pk.Contracts.Domains {
+		x.assume(x.evalClause(env, dc))
+		x.note("assumed domain of configuration: %s", dc.Text)
+	}
 	var reqs []*Term
 	for _, c := range fc.Requires {
 		t := x.evalClause(env, c)
@@ -147,18 +151,29 @@ func (x *Exec) verify() {
 			penv.vars[g.Tags[0]] = penv.eval(g.E)
 		}
 		// case-split hints: each ensures obligation is proved once per case and once for "none of the cases"
-		var cases []*Term
+		cases := []*Term{o.True()}
 		if len(fc.Splits) > 0 {
 			senv := x.specEnv(x.entry, x.entry)
-			var all []*Term
+			var groups []string
+			byGroup := map[string][]*Term{}
 			for _, sc := range fc.Splits {
-				t := x.evalClause(senv, sc)
-				cases = append(cases, t)
-				all = append(all, t)
+				g := sc.Tags[0]
+				if _, ok := byGroup[g]; !ok {
+					groups = append(groups, g)
+				}
+				byGroup[g] = append(byGroup[g], x.evalClause(senv, sc))
 			}
-			cases = append(cases, o.Not(o.Or(all...)))
-		} else {
-			cases = []*Term{o.True()}
+			for _, g := range groups {
+				gc := append([]*Term{}, byGroup[g]...)
+				gc = append(gc, o.Not(o.Or(byGroup[g]...)))
+				var nc []*Term
+				for _, a := range cases {
+					for _, b := range gc {
+						nc = append(nc, o.And(a, b))
+					}
+				}
+				cases = nc
+			}
 		}
 		for i, c := range fc.Ensures {
 			x.curPos = fmt.Sprintf("%s:%d", x.contractFile(), c.Line)
@@ -168,7 +183,10 @@ func (x *Exec) verify() {
 				if len(cases) > 1 {
 					label = fmt.Sprintf("%d.case%d", i, ci)
 				}
-				x.oblige("ensures", label, c.Tags, c.Text, o.And(r.St.Guard, cs), goal)
+				ob := x.oblige("ensures", label, c.Tags, c.Text, o.And(r.St.Guard, cs), goal)
+				if len(cases) > 1 {
+					ob.Case = cs
+				}
 			}
 		}
 		if fc.PanicsIff != nil {
